@@ -398,7 +398,7 @@ def flag_lattice():
                 except Exception:
                     continue
                 n += 1
-                if any(out is t for t in ts): continue      # the call handed back its operand itself (Dropout in eval mode): no new tensor to judge
+                if c["op"] == "dropout" and any(out is t for t in ts): continue      # Dropout in eval mode hands back its operand itself (as torch does): no new tensor to judge; any OTHER op that returns its operand is judged like a result
                 want = (mode == "grad") and any(bool(t.requires_grad) for i, t in enumerate(ts) if i in fl)
                 name = c["op"] + ("" if c.get("form", "fn") == "fn" else ":" + c["form"])
                 case = {"history": [], "flag_case": {"op": c["op"], "form": c.get("form", "fn"), "noperands": len(arrays), "args": json.loads(key[3])}, "requires_grad": rg, "mode": mode}
